@@ -252,3 +252,133 @@ func R77() Rule {
 		}
 	}}
 }
+
+// ---------------------------------------------------------------------------
+// R79: the MD5 recorded for an uploaded object is computed from the bytes that are stored.
+//
+// C02: "with size, MD5 and content type in its metadata matching what was sent".
+// Every assignment to the Md5Hash of the object handed to Store.Add in the upload
+// path takes a value derived from md5.Sum(X) where X is the very content value
+// passed to that Add (not the request's declared hash, not a hash taken before the
+// body was reassembled or decompressed).  The declared hash is only compared.
+// ---------------------------------------------------------------------------
+
+func R79() Rule {
+	return Rule{Name: "R79", Run: func(c *core.Ctx) {
+		P := c.P
+		if P.SPkgs[core.PkgGcsemu] == nil {
+			return
+		}
+		root := P.MustFunc(core.PkgGcsemu, "(*GcsEmu).finishUpload")
+		c.Fn("(*GcsEmu).finishUpload")
+		scope := P.Scope(root, func(f *ssa.Function) bool { return core.PkgPathOf(f) != core.PkgGcsemu })
+		nl := nilness(P)
+		n := 0
+		for _, add := range core.CallsIn(scope, func(ci *core.CallInfo) bool { return isStoreCall(ci, "Add") && len(ci.Common.Args) >= 4 }) {
+			content, meta := add.Common.Args[2], add.Common.Args[3]
+			sameContent := func(v ssa.Value) bool {
+				return v == content || nl.resolveAt(v) == nl.resolveAt(content) || nl.same(v, content)
+			}
+			isSumOfContent := func(v ssa.Value) bool {
+				call, ok := v.(*ssa.Call)
+				if !ok || !core.Call(call).IsFunc("crypto/md5", "Sum") || len(call.Call.Args) != 1 {
+					return false
+				}
+				return sameContent(call.Call.Args[0])
+			}
+			// stores to the Md5Hash field of the object handed to Add, anywhere in the upload path
+			k := 0
+			for _, f := range scope {
+				for _, b := range f.Blocks {
+					for _, in := range b.Instrs {
+						st, ok := in.(*ssa.Store)
+						if !ok {
+							continue
+						}
+						fa, ok := st.Addr.(*ssa.FieldAddr)
+						if !ok {
+							continue
+						}
+						if _, fname, _ := core.FieldName(fa); fname != "Md5Hash" {
+							continue
+						}
+						if !(nl.resolveAt(fa.X) == nl.resolveAt(meta) || nl.same(fa.X, meta)) {
+							continue
+						}
+						n++
+						k++
+						construct := fmt.Sprintf("(*GcsEmu).finishUpload/Md5Hash-assignment#%d/hash-of-the-stored-bytes", k)
+						if hashOf(P, st.Val, isSumOfContent, map[ssa.Value]bool{}, 0) {
+							c.Ok("R79", construct, st.Pos(), true, "the recorded MD5 derives from md5.Sum of the content value that is passed to Store.Add")
+						} else {
+							c.Bad("R79", construct, st.Pos(), "the MD5 recorded for the object does not derive from md5.Sum of the very bytes handed to Store.Add (a declared hash taken over, or a hash of another buffer): metadata and content of the served object disagree")
+						}
+					}
+				}
+			}
+		}
+		if n == 0 {
+			c.Unknown("R79", "(*GcsEmu).finishUpload/Md5Hash-assignment", root.Pos(), "the upload path no longer assigns the Md5Hash of the object it stores")
+		}
+	}}
+}
+
+// hashOf: v is computed from a value for which leaf holds — through slicing of the digest array,
+// encoding calls, local variables and φs.
+func hashOf(P *core.Program, v ssa.Value, leaf func(ssa.Value) bool, seen map[ssa.Value]bool, depth int) bool {
+	if v == nil || depth > 12 || seen[v] {
+		return false
+	}
+	seen[v] = true
+	if leaf(v) {
+		return true
+	}
+	switch x := v.(type) {
+	case *ssa.Call:
+		if x.Call.IsInvoke() {
+			// base64.StdEncoding.EncodeToString(digest): method on the encoding value
+		}
+		for _, a := range x.Call.Args {
+			if hashOf(P, a, leaf, seen, depth+1) {
+				return true
+			}
+		}
+	case *ssa.Slice:
+		return hashOf(P, x.X, leaf, seen, depth+1)
+	case *ssa.UnOp:
+		if x.Op == token.MUL {
+			if cell := core.CellOf(x.X); cell != nil {
+				// every value the variable can hold
+				sts := core.StoresTo(cell)
+				for _, st := range sts {
+					if !hashOf(P, st.Val, leaf, map[ssa.Value]bool{}, depth+1) {
+						return false
+					}
+				}
+				return len(sts) > 0
+			}
+		}
+		return hashOf(P, x.X, leaf, seen, depth+1)
+	case *ssa.Alloc:
+		for _, st := range core.StoresTo(x) {
+			if hashOf(P, st.Val, leaf, seen, depth+1) {
+				return true
+			}
+		}
+	case *ssa.Phi:
+		// every incoming value
+		for _, e := range x.Edges {
+			if !hashOf(P, e, leaf, map[ssa.Value]bool{}, depth+1) {
+				return false
+			}
+		}
+		return len(x.Edges) > 0
+	case *ssa.Convert:
+		return hashOf(P, x.X, leaf, seen, depth+1)
+	case *ssa.ChangeType:
+		return hashOf(P, x.X, leaf, seen, depth+1)
+	case *ssa.Extract:
+		return hashOf(P, x.Tuple, leaf, seen, depth+1)
+	}
+	return false
+}
